@@ -17,7 +17,7 @@ for k in sorted(r, key=lambda s: (s.split("-")[0], int(s.split("-")[1]))):
     rows.append(f"| {k} | {title} | {', '.join(m['files'])[:60]} | {'; '.join(cells)} |")
 tab = "\n".join(rows)
 n = len(r)
-ROUNDS_WORD = "ten"
+ROUNDS_WORD = "eleven"
 txt = open(f"{V}/tools/design_asbuilt.md").read()
 txt += f"""### 10.8 Seeded changes: which check catches which change
 
@@ -36,7 +36,8 @@ earlier descriptions listed and interactions of two features, error and clean-up
 the edge of their range suggested; round 8: `Cnn-9`, pointed at the way the code uses its libraries
 and at the stand-alone tools; round 9: `Cnn-10`, the same brief with nine earlier descriptions per
 property to stay away from; round 10: `Cnn-11`, additionally told which slips had been used for
-*any* property, so that none would be re-used across properties). Each
+*any* property, so that none would be re-used across properties; round 11: `Cnn-12`, ten properties
+only - C02, C04, C05, C06, C07, C11, C14, C16, C17, C19 - for lack of time). Each
 was confirmed by me (applies to HEAD, suite still 147 passed, its own `demo.py` exits 0 without
 and 1 with the change — `seeded/<id>/confirm.txt`) and is kept as
 `seeded/<id>/{{patch.diff, demo.py, notes.md, meta.json}}`. `tools/seed_matrix.py` applies each to
@@ -320,6 +321,16 @@ What the seeded changes taught, and what was added to the checks because of them
   cap) and was corrected; a false alarm of mine as well (the inventory prints labels in a padded
   column, so labels that differ by a trailing blank cannot be told apart in its text: the check now
   counts pairs and KSK lines instead of comparing label text).
+* Round 11 (`Cnn-12`, ten properties): first sweep 6 of 10 reported by their own check with a
+  failing input (C04, C05, C06, C11, C14, C17), one through the regenerated bridge only (C07), three
+  not at all (C02, C16, C19). All ten are now reported with a failing input. Added: C02-12 (key tag
+  returned without the final 16-bit mask) and C07-12 (every carry folded back) -> KSKs and a ZSK
+  whose key tag sum carries a second time, in the plain and in the revoked form, published, signing
+  and revoked (C02), honestly tagged in a KSR judged with the key check on (C07: the tag comparison
+  belongs to the key check, which C07's policy had off); C16-12 (a mapping accepted where a list of
+  key names is expected) -> schema options given as mappings, numbers, nested lists; C19-12 (SEC1
+  prefix stripped from an already bare point) -> inventory of configured EC KSKs whose X coordinate
+  begins with 0x04 or 0x00, on tokens that return the point wrapped and bare.
 * Everything else in the {ROUNDS_WORD} rounds was caught by the check as it stood.
 
 ### 10.9 Running it
@@ -330,10 +341,11 @@ quick|thorough`. Every run regenerates the pieces of `coq/Gen` the property depe
 and rewrites `evidence/Cnn.json`. Quick runs take 5-70 s per property (C08, C12, C13: about a
 minute - C13 because of the watchdog budget, which is CPU time of the loading process, not
 wall-clock), the whole quick pass about 10 min on 16 cores; the last full thorough pass over all
-twenty properties (2026-10-02 20:18-20:49Z, after the last change to checks and models) took
-31 min and reported no violation on the unchanged tree; the committed `evidence/*.json` are from
-that pass. The last sweep of `tools/seed_matrix.py` over all {n} seeded changes (own property's
-check only, 18:25-20:09Z) had every one reported with a failing input. `coqchk -o` over the twenty
+twenty properties (2026-10-02 20:18-20:49Z) took 31 min and reported no violation on the unchanged
+tree; the twelve checks changed afterwards (debug-logging rotation, round 11) were re-run at the
+thorough tier (21:44-22:05Z, no violation); the committed `evidence/*.json` are from the quick pass
+run after the last change (22:05-22:14Z). The last sweep of `tools/seed_matrix.py` over all {n} seeded changes (own property's
+check only, 18:25-20:09Z, the 220 changes of rounds 1-10) had every one reported with a failing input; the ten of round 11 were swept on their own afterwards. `coqchk -o` over the twenty
 `Props` files was re-run after the last Coq change (20:59Z, 5m44s): no axioms, nothing relying on
 type-in-type, unsafe fixpoints or assumed positivity (`evidence/coqchk.txt`).
 """
